@@ -92,7 +92,14 @@ def identify_many(ctx, harness, opts, names, tag):
     return res
 
 
+PKG_NAMES_STYLE = ["foo", "Foo", "new_foo", "foo_args", "FooResult", "FooPtr", "Foo_A", "Foo__A"]
+
+
 def alphabets(small=False):
+    if small == "tiny":
+        return dict(pkg=["foo", "Foo", "new_foo", "FooPtr", "Foo__A"], field=FIELD_NAMES_SMALL, param=PARAM_NAMES_SMALL, fn=FN_NAMES)
+    if small == "style":
+        return dict(pkg=PKG_NAMES_STYLE, field=FIELD_NAMES_SMALL, param=PARAM_NAMES_SMALL, fn=FN_NAMES)
     if small == "medium":
         return dict(pkg=PKG_NAMES_MEDIUM, field=FIELD_NAMES, param=PARAM_NAMES, fn=FN_NAMES)
     return dict(pkg=PKG_NAMES_SMALL if small else PKG_NAMES,
@@ -146,14 +153,54 @@ def style_tables(ctx, harness, style, extra_opts, raw):
     }
 
 
-def build_tables(ctx, harness, plan):
+PROBE_IDL = """namespace go probe
+struct Zp { 1: i32 init_default, 2: i32 descriptor, 3: i32 get__field_mask }
+union Zu { 1: i32 count_set_fields_zu }
+service Zs { void client_(1: i32 nil) }
+"""
+
+
+def probe_reserved(ctx, harness, thriftgo):
+    """which generated method names does the real scope builder reserve?  Observed on a probe program (the generated code
+    need not compile; it is only parsed)."""
+    d = ctx.mkdir("naming", "probe")
+    with open(os.path.join(d, "probe.thrift"), "w") as fh:
+        fh.write(PROBE_IDL)
+    out = os.path.join(d, "out")
+    p = ctx.run([thriftgo, "-g", "go:with_reflection,with_field_mask", "-o", out, "probe.thrift"], cwd=d, check=False)
+    files = [os.path.join(dp, f) for dp, _, fs in os.walk(out) for f in fs if f.endswith(".go")]
+    if p.returncode != 0 or not files:
+        raise vlib.MachineryError("probe program rejected by thriftgo: %s" % p.stderr[-500:])
+    inf, outf = os.path.join(d, "in.ndjson"), os.path.join(d, "out.ndjson")
+    vlib.write_ndjson(inf, [{"case": "probe", "files": files}])
+    ctx.run([harness, "godecls", inf, outf], timeout=300)
+    r = vlib.read_ndjson(outf)[0]
+    pd = list(r["pkgs"].values())[0]
+    zp = pd["fields"].get("Zp", [])
+    zu = pd["fields"].get("Zu", [])
+    if "InitDefault" not in zp and "InitDefault_" not in zp:
+        raise vlib.MachineryError("probe: unexpected fields of Zp: %r" % zp)
+    params = pd.get("params", {})
+    cm = [m for m in pd["iface"].get("Zs", [])]
+    prm = params.get("Zs." + cm[0], []) if cm else []
+    return {"initDefault": "InitDefault_" in zp,
+            "countT": "CountSetFieldsZu_" in zu,
+            "reflection": "GetDescriptor_" in pd["methods"].get("Zp", []),
+            "fieldMask": "Get_FieldMask_" in zp,
+            "clientMethod": "Client__" in cm,
+            "nilParam": "_nil" in prm}
+
+
+def build_tables(ctx, harness, plan, reserved):
     """naming_tables.json for a list of plan entries (style, feature profile, family, K, small alphabet?)"""
     raw = all_raw()
     idx = {n: i + 1 for i, n in enumerate(raw)}
     styles = []
     style_idx = {}
     entries = []
-    for (style, featname, family, k, small) in plan:
+    for ent in plan:
+        (style, featname, family, k, small) = ent[:5]
+        sample = ent[5] if len(ent) > 5 else 1
         fp = FEATS[featname]
         # the feature options do not influence Identify except compatible_names, which is a style of its own
         if style not in style_idx:
@@ -162,11 +209,11 @@ def build_tables(ctx, harness, plan):
         al = alphabets(small)
         feat = dict(FEAT0)
         feat.update(fp.get("feat", {}))
-        entries.append({"style": style_idx[style], "feat": feat, "family": family, "k": k,
+        entries.append({"style": style_idx[style], "feat": feat, "family": family, "k": k, "sample": sample,
                         "pkgNames": [idx[n] for n in al["pkg"]], "fieldNames": [idx[n] for n in al["field"]],
                         "paramNames": [idx[n] for n in al["param"]], "fnNames": [idx[n] for n in al["fn"]]})
     return {"raw": raw, "styles": styles, "plan": entries, "keywords": KEYWORDS, "idlName": IDL_BASE,
-            "idlCamel": camel(IDL_BASE), "helper": HELPER}
+            "idlCamel": camel(IDL_BASE), "helper": HELPER, "reserved": reserved}
 
 
 CFG = """SPECIFICATION Spec
@@ -193,6 +240,7 @@ def case_program(tbl, case):
     need_helper_struct = False
     need_exc = False
     type_refs = []
+    td_refs = []     # typedefs of the helper struct are referenced from a second helper (no recursion through the alias)
     for d in case["defs"]:
         name = raw[d["n"] - 1]
         k = d["k"]
@@ -221,7 +269,7 @@ def case_program(tbl, case):
         elif k == "tdstruct":
             need_helper_struct = True
             defs.append({"k": "typedef", "name": name, "type": T(HELPER + "h")})
-            type_refs.append(name)
+            td_refs.append(name)
         elif k == "tdbase":
             defs.append({"k": "typedef", "name": name, "type": T("i32")})
             type_refs.append(name)
@@ -232,6 +280,9 @@ def case_program(tbl, case):
         # helper struct: target of struct typedefs, and one field per user type (references must resolve)
         pre.append({"k": "struct", "name": HELPER + "h",
                     "fields": [F(i + 1, "optional", T(n), "r%d" % (i + 1)) for i, n in enumerate(type_refs)]})
+    if td_refs:
+        pre.append({"k": "struct", "name": HELPER + "t",
+                    "fields": [F(i + 1, "optional", T(n), "t%d" % (i + 1)) for i, n in enumerate(td_refs)]})
     if need_exc:
         pre.append({"k": "exception", "name": HELPER_EXC, "fields": [F(1, "default", T("string"), "m")]})
     return {"files": [{"path": IDL_BASE + ".thrift", "namespaces": [{"lang": "go", "name": "n"}], "defs": pre + defs}]}
